@@ -31,7 +31,7 @@ def plan_config(rng, nmax=30000, klass=None):
     Jdes>=1, Kdes>=1.  `klass` selects a boundary-seeking class (None = random mix)."""
     classes = ["random", "random", "random", "tiny-N", "dense-overlap", "Lmin-eq-N",
                "bmin-large", "Jdes-1", "Kdes-1", "short-segments", "Lmin-large",
-               "kaiser-default-olap"]
+               "kaiser-default-olap", "many-segments"]
     if klass is None:
         klass = classes[int(rng.integers(len(classes)))]
     if klass == "tiny-N":
@@ -69,6 +69,14 @@ def plan_config(rng, nmax=30000, klass=None):
         Lmin = 1
         Jdes = int(rng.choice([1, 2, 3, 5, 10]))
         Kdes = int(rng.choice([1, 2, 10]))
+    elif klass == "many-segments":
+        # bins averaged over more than 16384 / 32768 segments
+        N = int(rng.integers(17000, min(max(nmax, 17001), 70000)))
+        olap = float(rng.choice([0.9, 0.95, 0.75]))
+        Lmin = int(rng.choice([1, 1, 2]))
+        Jdes = int(rng.choice([2, 5, 10]))
+        Kdes = int(rng.choice([10, 100]))
+        bmin = 1.0
     elif klass == "kaiser-default-olap":
         from .refmodel import kaiser_alpha, kaiser_rov
         olap = float(kaiser_rov(kaiser_alpha(float(rng.choice([40, 60, 100, 150, 200])))))
